@@ -355,8 +355,8 @@ class Repo(object):
                     try:
                         m = self.mod(mname)
                         rec = m.last_binding(n)
-                        if rec is None or rec[0] != "import":
-                            continue  # only a definition that moved away and is imported back
+                        if rec is None or not (rec[0] == "import" or (rec[0] == "assign" and isinstance(rec[1], ast.Name))):
+                            continue  # only a definition that moved away and is imported back (directly, or under its old name through an alias)
                         site = self.def_site(m, n)
                     except AnalysisError:
                         continue
@@ -478,6 +478,14 @@ class Repo(object):
             base = rec[1]
         elif rec[0] == "import":
             base = "%s.%s" % (rec[1], rec[2])
+            if base in self._paths and not (rec[1] in self._paths and rec[2] in self.mod(rec[1]).bindings):
+                # `from ural import utils`: a sub-module; utils.f / utils.CONST.m name the sub-module's own definitions
+                parts = list(reversed(parts))
+                if parts:
+                    sub = self.mod(base)
+                    if parts[0] in sub.bindings:
+                        return ".".join([self.canon(sub, parts[0])] + parts[1:])
+                return ".".join([base] + parts)
             if rec[1] in self._paths:
                 base = self.canon(module, cur.id)
         else:
@@ -528,7 +536,9 @@ class Repo(object):
                 val = self._fold(module, rec[1])[rec[2]]
             elif kind == "import":
                 src, orig = rec[1], rec[2]
-                if src in self._paths:
+                if src in self._paths and orig not in self.mod(src).bindings and "%s.%s" % (src, orig) in self._paths:
+                    val = FuncRef(self.mod("%s.%s" % (src, orig)), None, "%s.%s" % (src, orig))
+                elif src in self._paths:
                     val = self.const(self.mod(src), orig)
                 elif (src, orig) in _STDLIB_CONSTANTS:
                     val = _STDLIB_CONSTANTS[(src, orig)]
